@@ -81,6 +81,14 @@ def main(argv):
         mod.run(rep)
     except Exception:
         rep.error('check crashed: ' + traceback.format_exc()[-3000:])
+        # a crash of the deductive part (e.g. a function under contract that no longer exists in a shape the setup code
+        # expects) must not silence the bounded stand-in: a violation found there still decides the run (exit 1 wins)
+        if not getattr(rep, 'bounded_started', False):
+            try:
+                from .props.common import run_bounded
+                run_bounded(rep, prop, env.TIER != 'thorough')
+            except Exception:
+                rep.error('bounded driver crashed: ' + traceback.format_exc()[-1500:])
     collect_guards()
     return rep.finish(f'bin/check {prop} --tier {env.TIER}')
 
